@@ -28,6 +28,19 @@ def is_memoised(node: ast.AST) -> Optional[str]:
     return None
 
 
+def _attribute_memo(fn: ast.AST) -> Optional[str]:
+    """name X when the method returns a remembered self.X early (`if self.X is not None: return self.X` / `if self.X: return self.X`) and assigns self.X later"""
+    for st in fn.body:
+        if isinstance(st, ast.If) and st.body and isinstance(st.body[0], ast.Return) and st.body[0].value is not None:
+            rv = st.body[0].value
+            if isinstance(rv, ast.Attribute) and isinstance(rv.value, ast.Name) and rv.value.id == "self":
+                t = ast.unparse(st.test)
+                if t in (f"self.{rv.attr} is not None", f"self.{rv.attr}", f"self.{rv.attr} != None"):
+                    if any(isinstance(a, ast.Assign) and any(ast.unparse(x) == f"self.{rv.attr}" for x in a.targets) for a in ast.walk(fn)):
+                        return rv.attr
+    return None
+
+
 def _self_reads(fn: ast.AST) -> Set[str]:
     out = set()
     for n in ast.walk(fn):
@@ -121,6 +134,19 @@ def findings(tree: ast.AST, repo_classes: Set[str], returns_mutable_func: Set[st
                 visit(n.body, n, prefix + n.name + ".")
             elif isinstance(n, (ast.FunctionDef, ast.AsyncFunctionDef)):
                 deco = is_memoised(n)
+                if not deco and cls is not None and n.name != "__init__":
+                    slot = _attribute_memo(n)
+                    if slot:
+                        # a hand-rolled memo: `if self.X is not None: return self.X` ... `self.X = value`.  The remembered value goes stale when it was
+                        # computed from fields that another method (which does not reset X) can change afterwards
+                        writers = _field_writers(cls)
+                        resetters = set(writers.get(slot, []))
+                        stale = sorted((f, sorted(set(writers[f]) - resetters - {n.name})) for f in _self_reads(n) if f in writers and f != slot)
+                        stale = [(f, ms) for f, ms in stale if ms]
+                        if stale:
+                            f0, ms = stale[0]
+                            out.append((n, prefix + n.name, f"{n.name} remembers its result in self.{slot}; the result is computed from self.{f0}, which {', '.join(ms[:3])} can change "
+                                                            f"afterwards without resetting self.{slot}: later calls return the value of the earlier state"))
                 if deco:
                     if cls is not None and n.args.args and n.args.args[0].arg == "self":
                         writers = _field_writers(cls)
@@ -153,6 +179,19 @@ def findings(tree: ast.AST, repo_classes: Set[str], returns_mutable_func: Set[st
 
 _EXAMPLE = '''
 from functools import lru_cache, cached_property
+class Solver:
+    def __init__(self, mol):
+        self.mol = mol
+        self.fragment = None
+        self.rdms = None
+    def simulate(self):
+        self.fragment = solve(self.mol)
+        return self.fragment.e
+    def get_rdm(self):
+        if self.rdms is not None:
+            return self.rdms
+        self.rdms = make(self.fragment)
+        return self.rdms
 class Box:
     def __init__(self, items):
         self.items = dict(items)
@@ -175,7 +214,7 @@ def size(n):
 
 def check_memoisation(idx: Index, rep, relpaths: Iterable[str], rule: str = "K1.memoisation"):
     ex = findings(ast.parse(_EXAMPLE), set())
-    if sorted(q for _, q, _ in ex) != ["Box.total", "build"]:
+    if sorted(q for _, q, _ in ex) != ["Box.total", "Solver.get_rdm", "build"]:
         raise AnalysisError(f"memoisation rule self-check failed: built-in example reports {[q for _, q, _ in ex]}")
     classes = {c.name for m in idx.modules.values() if not m.external for c in m.classes.values()}
     # repository functions that build and return a mutable object (one level): used for memoised wrappers around them
